@@ -51,15 +51,18 @@ RefEnv(basis, e) ==
     ELSE e
 
 \* the cell sizes get_cell_size() may return in environment e (basis already updated):
-\*  - what a cache-less computation gives now, or
+\*  - what a cache-less computation gives now, from the current pixel size or (exemption) from the
+\*    pixel size of the last required determination, or
 \*  - with queries disabled: the (positive) fact established while they were enabled, which is
 \*    still true of this terminal size and swap setting
 \* a None obtained while queries were disabled is NOT in the set once they are enabled again
-AllowedCells(basis, e, swap, queries) ==
-  LET r == RefEnv(basis, e)
-      now == Compute(r, swap, queries).cell
-      known == Compute(r, swap, TRUE).cell
+Candidates(x, swap, queries) ==
+  LET now == Compute(x, swap, queries).cell
+      known == Compute(x, swap, TRUE).cell
   IN {now} \cup (IF ~queries /\ known # None THEN {known} ELSE {})
+
+AllowedCells(basis, e, swap, queries) ==
+  Candidates(e, swap, queries) \cup Candidates(RefEnv(basis, e), swap, queries)
 
 \* ratios are compared as fractions
 SameRatio(a, b) == a[1] * b[2] = a[2] * b[1]
